@@ -30,7 +30,7 @@ from lib import impl
 from lib.core import cN, cbool, cbytes, clist, copt, cpair, vB, vL, vN, vopt
 
 PROPERTY = "C03"
-GEN: list = []
+GEN: list = ["tree"]   # Gen/Tree.v: the decisions of Tree.add/as_list/as_bytes/digest/from_list (translator/treeunit.py)
 RULE = (
     "tree stream: 0-7 entries over a pool of escaping-relevant name parts (spaces, quotes, backslashes, "
     "control characters, DEL, non-ASCII, boundary BMP code points, non-BMP), depth 1-3, file/dir name "
